@@ -23,6 +23,10 @@ pub fn scratch_base() -> PathBuf {
 
 /// Run one scenario through the engine of its check.
 pub fn run_scenario(ctx: &mut Ctx, spec: &CheckSpec, sc: &Value, run_id: &str) -> Outcome {
+    // a check may mix engines: scenarios carrying "engine":"sysim" run under the system-call simulator
+    if sc.get("engine").and_then(|e| e.as_str()) == Some("sysim") {
+        return sysim::run_scenario(ctx, spec, sc, run_id);
+    }
     match spec.engine {
         "tri" => crate::interp::run_tri(ctx, sc, run_id),
         "sysim" => sysim::run_scenario(ctx, spec, sc, run_id),
@@ -107,7 +111,7 @@ pub fn lane_main(args: &Args) -> i32 {
                 harness.push(format!("run {}: {}", r, h));
             }
         }
-        let nt = if spec.engine == "sysim" { sysim::nontrivial(spec.id, &sc, &out) } else { checks::nontrivial(spec.id, &sc, &out) };
+        let nt = if is_sysim(&spec, &sc) { sysim::nontrivial(spec.id, &sc, &out) } else { checks::nontrivial(spec.id, &sc, &out) };
         if let Ok(p) = std::env::var("VERIF_DUMP_HASHES") {
             use std::io::Write;
             if let Ok(mut f) = std::fs::OpenOptions::new().create(true).append(true).open(&p) {
@@ -236,6 +240,10 @@ pub fn known_for<'a>(known: &'a [Known], id: &str, sig: &str) -> Option<&'a Know
 }
 
 // ------------------------------------------------------------------------------------------ minimisation
+fn is_sysim(spec: &CheckSpec, sc: &Value) -> bool {
+    spec.engine == "sysim" || sc.get("engine").and_then(|e| e.as_str()) == Some("sysim")
+}
+
 fn reproduces(ctx: &mut Ctx, spec: &CheckSpec, sc: &Value, sig: &str, tag: &str) -> Option<Viol> {
     let out = run_scenario(ctx, spec, sc, tag);
     out.viols.into_iter().find(|v| v.sig == sig)
@@ -244,7 +252,7 @@ fn reproduces(ctx: &mut Ctx, spec: &CheckSpec, sc: &Value, sig: &str, tag: &str)
 pub fn minimise(ctx: &mut Ctx, spec: &CheckSpec, sc: &Value, sig: &str, budget_s: u64) -> Value {
     let start = std::time::Instant::now();
     let mut cur = sc.clone();
-    if spec.engine == "sysim" {
+    if is_sysim(spec, sc) {
         return sysim::minimise(ctx, spec, sc, sig, budget_s);
     }
     let mut round = 0;
